@@ -21,8 +21,14 @@ fn ns_code(r: &ResolveResult) -> String {
 }
 
 enum Raw {
-    Start { enc: (String, String, String, String), raw: Vec<u8>, empty: bool },
-    End { raw: Vec<u8> },
+    Start {
+        enc: (String, String, String, String),
+        raw: Vec<u8>,
+        empty: bool,
+    },
+    End {
+        raw: Vec<u8>,
+    },
     Other(String),
 }
 
@@ -40,7 +46,13 @@ fn attrs_code(reader: &NsReader<&[u8]>, tag: &BytesStart<'_>) -> String {
                     Ok(v) => format!("s{}", hs(v.as_bytes())),
                     Err(_) => "n".into(),
                 };
-                items.push(format!("{}/{}/{}/{}", hs(a.key.as_ref()), ns_code(&res), hs(local.as_ref()), val));
+                items.push(format!(
+                    "{}/{}/{}/{}",
+                    hs(a.key.as_ref()),
+                    ns_code(&res),
+                    hs(local.as_ref()),
+                    val
+                ));
             }
         }
     }
@@ -82,7 +94,9 @@ pub fn tokenize(text: &str) -> String {
                         raw: t.name().as_ref().to_vec(),
                         empty: matches!(ev, Event::Empty(_)),
                     },
-                    Event::End(t) => Raw::End { raw: t.name().as_ref().to_vec() },
+                    Event::End(t) => Raw::End {
+                        raw: t.name().as_ref().to_vec(),
+                    },
                     Event::Text(t) => Raw::Other(format!("T|{}", hs(t.as_ref()))),
                     Event::CData(_) => Raw::Other("C".into()),
                     Event::Comment(_) => Raw::Other("K".into()),
@@ -114,12 +128,20 @@ pub fn tokenize(text: &str) -> String {
                     let mut j = i + 1;
                     while j < evs.len() {
                         match &evs[j] {
-                            Raw::Start { raw: r2, empty: false, .. } if r2 == raw => depth += 1,
+                            Raw::Start {
+                                raw: r2,
+                                empty: false,
+                                ..
+                            } if r2 == raw => depth += 1,
                             Raw::End { raw: r2 } if r2 == raw => {
                                 if depth == 0 {
                                     let a = pos_after[i];
                                     let b = pos_after[j - 1];
-                                    if a <= b && b <= text.len() && text.is_char_boundary(a) && text.is_char_boundary(b) {
+                                    if a <= b
+                                        && b <= text.len()
+                                        && text.is_char_boundary(a)
+                                        && text.is_char_boundary(b)
+                                    {
                                         span = format!("s{}", hs(text[a..b].as_bytes()));
                                     }
                                     break;
@@ -197,7 +219,9 @@ pub fn uri_oracle(spans: &[String]) -> String {
         match UriStr::new(s) {
             Err(_) => items.push(format!("{}:!", crate::util::hexs(s))),
             Ok(u) => {
-                let qun = u.query_str().and_then(|q| quick_xml::escape::unescape(q).ok().map(|c| c.to_string()));
+                let qun = u
+                    .query_str()
+                    .and_then(|q| quick_xml::escape::unescape(q).ok().map(|c| c.to_string()));
                 items.push(format!(
                     "{}:{}/{}/{}/{}/{}/{}",
                     crate::util::hexs(s),
